@@ -47,6 +47,23 @@ def step (s : Unit) (f : List String) : Unit × String :=
     if sent ≥ n then (s, "bad-op") else
     -- the response head was relayed, then `copyResponse` failed: `panic(http.ErrAbortHandler)`
     (s, "aborted" ++ tail (.panic "net/http: abort Handler") (toString (Driver.kvNat f "s" 200)))
+  | "presp" :: _ =>
+    let r : Option String := do
+      let d ← Driver.kv f "d"
+      let k := Driver.kvNat f "c" 2
+      let st := Driver.kvNat f "s" 200
+      match d.splitOn ":" with
+      | [n, digs] =>
+        let ds := digs.splitOn "/"
+        if ds.length ≠ k || k < 1 || k > 16 then none else
+        -- k independent relays: each client gets its own backend response unchanged
+        let outs := ds.map fun dg =>
+          let back := relay { status := st, header := [], body := n ++ ":" ++ dg }
+          toString back.status ++ ":" ++ back.body
+        let evs := (List.replicate k Outcome.ret).flatMap fun o => (stateListener o).1
+        some (" ".intercalate outs ++ " evc=" ++ toString (evs.count .connected) ++ "/" ++ toString (evs.count .disconnected))
+      | _ => none
+    (s, r.getD "bad-op")
   | ["listener", "ret"] => (s, "200" ++ tail .ret "200")
   | ["listener", "panic"] => (s, "eof" ++ tail (.panic "boom") "-")
   | ["listener", "abort"] => (s, "eof" ++ tail (.panic "net/http: abort Handler") "-")
